@@ -2,6 +2,7 @@
 list_to_tree_by_relation, dataframe_to_tree_by_relation, polars_to_tree_by_relation, nested_dict_to_tree and
 list_to_binarytree; the returned tree (or the fact that the call raised) is compared with Algo/Relation.v and the
 predicates of Spec/PC13.v are evaluated on it."""
+import json
 import math
 import os
 import warnings
@@ -46,7 +47,23 @@ def _mods():
     return _MODS
 
 
+TAG = "\x01"          # prefix of the canonical rendering of values the Coq `val` type has no constructor for
+
+
+def _float_canon(x):
+    if math.isnan(x):
+        return TAG + "float:nan"
+    if math.isinf(x):
+        return TAG + "float:" + repr(x)
+    if x == int(x):
+        return int(x)                       # 2.0 folds to 2 (pandas turns int columns with gaps into floats)
+    n, d = x.as_integer_ratio()
+    return ["$float", n, d]
+
+
 def _canon_val(v):
+    """an attribute value found on a result node -> JSON scalar / ["$float", num, den] / tagged string"""
+    import decimal
     if v is None:
         return None
     if isinstance(v, bool):
@@ -54,20 +71,72 @@ def _canon_val(v):
     if isinstance(v, int):
         return int(v)
     if isinstance(v, float):
-        if math.isnan(v):
-            return None
-        if v == int(v):
-            return int(v)
-        raise TypeError("non-integral float attribute")
+        return _float_canon(float(v))
     if isinstance(v, str):
         return v
+    if isinstance(v, decimal.Decimal):
+        return TAG + "Decimal:" + str(v)
+    if isinstance(v, (list, tuple)):
+        return TAG + type(v).__name__ + ":" + json.dumps([_canon_val(x) for x in v])
+    if type(v).__name__ == "NAType":
+        return TAG + "NA"
     if hasattr(v, "item"):          # numpy scalar
         return _canon_val(v.item())
     raise TypeError(f"attribute value of type {type(v).__name__}")
 
 
+def _py(v):
+    """a case value -> the Python object handed to bigtree ({"$": kind, "v": ...} = a value JSON cannot carry)"""
+    if not isinstance(v, dict):
+        return v
+    import decimal
+    import numpy as np
+    import pandas as pd
+    k = v["$"]
+    if k == "float":
+        return float(v["v"])
+    if k == "nan":
+        return float("nan")
+    if k == "na":
+        return pd.NA
+    if k == "dec":
+        return decimal.Decimal(v["v"])
+    if k == "npint":
+        return np.int64(v["v"])
+    if k == "npfloat":
+        return np.float64(v["v"])
+    if k == "list":
+        return list(v["v"])
+    raise ValueError(k)
+
+
+def _mval(v, nulls_are_missing):
+    """a case value -> what the model sees.  In relation rows None / NaN (float, numpy) / pd.NA are 'no value'
+    (dropped by design, assertions.isnull + pandas' own NA handling); in a nested dictionary they are values."""
+    if not isinstance(v, dict):
+        return v
+    k = v["$"]
+    if k == "float":
+        return _float_canon(float(v["v"]))
+    if k == "npfloat":
+        x = float(v["v"])
+        return None if (nulls_are_missing and math.isnan(x)) else _float_canon(x)
+    if k == "nan":
+        return None if nulls_are_missing else TAG + "float:nan"
+    if k == "na":
+        return None if nulls_are_missing else TAG + "NA"
+    if k == "dec":
+        import decimal
+        return TAG + "Decimal:" + str(decimal.Decimal(v["v"]))
+    if k == "npint":
+        return int(v["v"])
+    if k == "list":
+        return TAG + "list:" + json.dumps(v["v"])
+    raise ValueError(k)
+
+
 import re as _re
-_INTERNAL = _re.compile(r"^(name|_sep|_[A-Za-z]*Node__\w+)$")     # the library's own instance fields
+_INTERNAL = _re.compile(r"^(name|_sep|_extra|_[A-Za-z]*Node__\w+)$")     # the library's own instance fields
 
 
 def _obs_tree(root):
@@ -125,7 +194,7 @@ def _py_dict(d, name_key, child_key, memo=None):
 
 
 def _py_dict1(d, name_key, child_key, memo):
-    items = [(k, v) for k, v in d["entries"]]
+    items = [(k, _py(v)) for k, v in d["entries"]]
     ck = d["ckind"]
     if ck != "missing":
         if ck == "list":
@@ -139,7 +208,10 @@ def _py_dict1(d, name_key, child_key, memo):
 
 
 def _ctype(case, k):
-    return (case.get("ctypes") or {}).get(k, "int" if k == "age" else "bool" if k == "flag" else "str")
+    return (case.get("ctypes") or {}).get(k, BASE_TYPES.get(k, "str"))
+
+
+BASE_TYPES = {"age": "int", "tag": "str", "flag": "bool", "w": "float", "obj": "obj"}
 
 
 class ObsError(Exception):
@@ -158,7 +230,52 @@ def _node_types(m):
 
         class VBinary(BinaryNode):
             pass
-        m.update(Node=Node, BinaryNode=BinaryNode, VNode=VNode, VBinary=VBinary)
+
+        class EqNode(Node):
+            """value semantics: nodes whose names differ only in case compare (and hash) equal"""
+            def __eq__(self, other):
+                return isinstance(other, EqNode) and self.node_name.lower() == other.node_name.lower()
+
+            def __hash__(self):
+                return hash(self.node_name.lower())
+
+        class LenNode(Node):
+            """instances are falsy while they have no children"""
+            def __len__(self):
+                return len(self.children)
+
+        class FalseNode(Node):
+            def __bool__(self):
+                return False
+
+        class KwNode(Node):
+            """an extra constructor argument and a read-only property"""
+            def __init__(self, name="", extra=7, **kwargs):
+                super().__init__(name, **kwargs)
+                self._extra = extra
+
+            @property
+            def label(self):
+                return str(self.node_name).upper()
+
+        class EqBinary(BinaryNode):
+            def __eq__(self, other):
+                return isinstance(other, EqBinary) and self.val == other.val
+
+            def __hash__(self):
+                return hash(self.val)
+
+        class KwBinary(BinaryNode):
+            def __init__(self, name="", extra=7, **kwargs):
+                super().__init__(name, **kwargs)
+                self._extra = extra
+
+            @property
+            def label(self):
+                return "#" + self.name
+        m.update(Node=Node, BinaryNode=BinaryNode, VNode=VNode, VBinary=VBinary,
+                 NT={None: Node, "custom": VNode, "eq": EqNode, "len": LenNode, "false": FalseNode, "kw": KwNode},
+                 BT={None: BinaryNode, "custom": VBinary, "eq": EqBinary, "kw": KwBinary})
     return m
 
 
@@ -199,8 +316,29 @@ def _twice(build, conv, cls):
     return first
 
 
+def _heap_val(x):
+    """["f", "2.5"] float, ["d", "2.5"] Decimal, ["ni", 3] numpy int64, ["nf", "2.5"] numpy float64, ["b", true] bool"""
+    if not isinstance(x, list):
+        return x
+    if x[0] == "f":
+        return float(x[1])
+    if x[0] == "d":
+        import decimal
+        return decimal.Decimal(x[1])
+    if x[0] == "ni":
+        import numpy as np
+        return np.int64(x[1])
+    if x[0] == "nf":
+        import numpy as np
+        return np.float64(x[1])
+    if x[0] == "b":
+        return bool(x[1])
+    raise ValueError(x)
+
+
 def _heap_key(x):
-    return type(x).__name__ + ":" + repr(x)
+    """what a BinaryNode shows of its element: name = str(x) and val = int(x)"""
+    return str(x) + "|" + str(int(x))
 
 
 def _heap_codes(l):
@@ -215,12 +353,12 @@ def _heap_codes(l):
 def run_impl(prop, case):
     m = _node_types(_mods())
     kind = case["kind"]
-    custom = case.get("node_type") == "custom"
+    custom = case.get("node_type") is not None
     if kind == "rel":
         import copy
         pd, pl, C = m["pd"], m["pl"], m["construct"]
         rows, cols, ad = case["rows"], case["cols"], case["allow_dup"]
-        cls = m["VNode"] if custom else m["Node"]
+        cls = m["NT"][case.get("node_type")]
         kw = {"node_type": cls} if custom else {}
         if ad or case.get("ad_explicit"):
             kw["allow_duplicates"] = ad
@@ -242,7 +380,7 @@ def run_impl(prop, case):
                 return p
             return NULL[nulls[i] if i < len(nulls) else "none"]      # "no parent" spelled None / NaN / pd.NA
         cell = lambda i, k, polars=False: rows[i][0] if k == cn else parent_of(i, polars) if k == pn \
-            else rows[i][2].get(k)
+            else _py(rows[i][2].get(k))
         obs = {}
         for entry in case["entries"]:
             if entry == "list":
@@ -272,7 +410,7 @@ def run_impl(prop, case):
                 schema = {}
                 for k in order:
                     schema[k] = pl.Utf8 if k in (cn, pn) else \
-                        {"int": pl.Int64, "bool": pl.Boolean, "str": pl.Utf8}[_ctype(case, k)]
+                        {"int": pl.Int64, "bool": pl.Boolean, "str": pl.Utf8, "float": pl.Float64}[_ctype(case, k)]
                 data = [[cell(i, k, True) for k in order] for i in range(len(rows))]
                 df = pl.DataFrame(data, schema=schema, orient="row")
                 before = df.clone()
@@ -283,7 +421,7 @@ def run_impl(prop, case):
     if kind == "nest":
         C = m["construct"]
         import copy
-        cls = m["VNode"] if custom else m["Node"]
+        cls = m["NT"][case.get("node_type")]
         kw = {"node_type": cls} if custom else {}
         if case["name_key"] != "name" or case.get("keys_explicit"):
             kw["name_key"] = case["name_key"]
@@ -302,9 +440,9 @@ def run_impl(prop, case):
         return {"first": first, "second": second, "unchanged": bool(unchanged1 and d == before)}
     if kind == "heap":
         import copy
-        cls = m["VBinary"] if custom else m["BinaryNode"]
+        cls = m["BT"][case.get("node_type")]
         kw = {"node_type": cls} if custom else {}
-        vals = [float(x[1]) if isinstance(x, list) else x for x in case["list"]]     # ["f", "2.5"] = a float
+        vals = [_heap_val(x) for x in case["list"]]
         arg = tuple(vals) if case.get("as_tuple") else list(vals)
         before = copy.deepcopy(arg)
         codes = _heap_codes(vals)
@@ -347,6 +485,8 @@ def _cval(v):
         return f"VInt {cZ(v)}"
     if isinstance(v, str):
         return f"VStr {cstr(v)}"
+    if isinstance(v, (list, tuple)) and len(v) == 3 and v[0] == "$float":
+        return f"VFloat {cZ(int(v[1]))} {cZ(int(v[2]))}"
     raise TypeError(type(v))
 
 
@@ -386,13 +526,14 @@ def _cbin(b):
 
 def _crow(r, cols):
     c, p, a = r
-    return f"({cstr(c)}, {copt(p, cstr)}, {_cattrs([(k, a.get(k)) for k in cols])})"
+    return f"({cstr(c)}, {copt(p, cstr)}, {_cattrs([(k, _mval(a.get(k), True)) for k in cols])})"
 
 
 def _cnd(d):
     ck = {"missing": "CMissing", "bad": "CBad", "list": "CList"}[d["ckind"]]
     kids = d["kids"] if d["ckind"] == "list" else []
-    return f"ND {_cattrs(d['entries'])} {ck} {clist('(' + _cnd(k) + ')' for k in kids)}"
+    ents = [(k, _mval(v, False)) for k, v in d["entries"]]
+    return f"ND {_cattrs(ents)} {ck} {clist('(' + _cnd(k) + ')' for k in kids)}"
 
 
 def emit(prop, case, obs):
@@ -406,7 +547,7 @@ def emit(prop, case, obs):
                 f"({_cout_tree(obs['second'])}) {cbool(obs['unchanged'])}")
     if kind == "heap":
         o = f"Acc ({_cbin(obs['ok'])})" if "ok" in obs else f"Rej {int(obs['err'])}"
-        vals = [float(x[1]) if isinstance(x, list) else x for x in case["list"]]
+        vals = [_heap_val(x) for x in case["list"]]
         codes = _heap_codes(vals)
         return f"CHeap {clist(cZ(codes[_heap_key(x)]) for x in vals)} ({o})"
     raise ValueError(kind)
@@ -481,6 +622,17 @@ def gen_names(rng, par, pool_name, leafdup):
     return names
 
 
+FL = lambda t: {"$": "float", "v": t}
+# strings that look like a missing value or a number are ordinary strings
+STR_VALUES = ["t", "u", "", "", "x y", "7", "0", "nan", "NaN", " nan ", "inf", "-inf", "None", "null", "NA", "<NA>",
+              "0.0", "1e3", "True", "False"]
+# what an object column / a dictionary value can hold; None, NaN and pd.NA mean "no value" in relation rows
+OBJ_VALUES = ["nan", " NaN ", "None", "inf", "", 0, False, True, 17, FL("0.0"), FL("2.5"), {"$": "nan"}, None,
+              {"$": "na"}, {"$": "list", "v": [1, 2]}, {"$": "list", "v": []}, {"$": "npint", "v": 3},
+              {"$": "npint", "v": 0}, {"$": "npfloat", "v": "2.5"}, {"$": "npfloat", "v": "nan"},
+              {"$": "dec", "v": "1.50"}, {"$": "dec", "v": "NaN"}, {"$": "dec", "v": "0"}]
+
+
 def gen_attrs(rng, n, cols):
     out = []
     for i in range(n):
@@ -492,8 +644,12 @@ def gen_attrs(rng, n, cols):
                 a[k] = rng.choice([0, 0, rng.randint(-3, 99), rng.randint(-3, 99)])
             elif k == "flag":
                 a[k] = rng.random() < 0.5
+            elif k == "w":
+                a[k] = rng.choice([FL("0.0"), FL("2.5"), FL("-1.5"), FL("0.125"), FL("3.0"), {"$": "nan"}])
+            elif k == "obj":
+                a[k] = rng.choice(OBJ_VALUES)
             else:
-                a[k] = rng.choice(["t", "u", "", "", "x y", "7", "0"])
+                a[k] = rng.choice(STR_VALUES)
         out.append(a)
     return out
 
@@ -572,7 +728,8 @@ def gen_rel_valid(rng, shape=None, nmax=10):
     pool_name = rng.choice(["distinct", "distinct", "affix", "special"])
     leafdup = rng.random() < 0.4
     names = gen_names(rng, par, pool_name, leafdup)
-    cols = rng.choice([[], ["age"], ["age", "tag"], ["age", "tag"], ["flag"], ["age", "flag", "tag"]])
+    cols = rng.choice([[], ["age"], ["age", "tag"], ["age", "tag"], ["flag"], ["age", "flag", "tag"], ["tag", "w"],
+                       ["obj"], ["age", "obj"], ["w"]])
     attrs = gen_attrs(rng, len(par), cols)
     rows = tree_rows(par, names, attrs, rng.random() < 0.45)
     return par, names, cols, attrs, rows, f"{shape}/{pool_name}{'+leafdup' if leafdup else ''}"
@@ -589,7 +746,9 @@ def descendants(par, x):
     return out
 
 
-HEADERS = ["age (years)", "class", "def", "_id", "2024", "a b", "x-y", "é", "1st", "lambda"]
+HEADERS = ["age (years)", "class", "def", "_id", "2024", "a b", "x-y", "é", "1st", "lambda",
+           # names that collide with, or are affixes of, names the node classes define
+           "depth", "n", "names", "name_en", "path", "shift", "x", "y", "root", "val", "left"]
 
 
 def _gen_index(rng, rows):
@@ -616,12 +775,37 @@ def _gen_index(rng, rows):
     return labels
 
 
+def _case_variants(rng, rows):
+    """rename some names so that siblings differ only in letter case ("ab" / "AB"): different names, but nodes of a
+    value-equality subclass compare equal"""
+    rows = [list(r) for r in rows]
+    used = {c for c, _, _ in rows} | {p for _, p, _ in rows if p is not None}
+    by_parent = {}
+    for c, p, _ in rows:
+        if p is not None:
+            by_parent.setdefault(p, []).append(c)
+    groups = [cs for cs in by_parent.values() if len(set(cs)) >= 2]
+    rng.shuffle(groups)
+    for cs in groups[:3]:
+        a, b = rng.sample(sorted(set(cs)), 2)
+        new = a.swapcase()
+        if new == a or new in used or not a:
+            continue
+        used.add(new)
+        for r in rows:
+            if r[0] == b:
+                r[0] = new
+            if r[1] == b:
+                r[1] = new
+    return rows
+
+
 def _finish_rel(rng, lab, case):
     """attribute column headers that are no Python identifiers; pandas frames with non-default row labels"""
     if case["cols"] and rng.random() < 0.4:
         new = rng.sample(HEADERS, len(case["cols"]))
         ren = dict(zip(case["cols"], new))
-        case["ctypes"] = {ren[k]: ("int" if k == "age" else "bool" if k == "flag" else "str") for k in case["cols"]}
+        case["ctypes"] = {ren[k]: BASE_TYPES.get(k, "str") for k in case["cols"]}
         case["rows"] = [[c, p, {ren[k]: v for k, v in a.items()}] for c, p, a in case["rows"]]
         case["cols"] = new
         lab += "+headers"
@@ -629,10 +813,15 @@ def _finish_rel(rng, lab, case):
         case["index"] = _gen_index(rng, case["rows"])
         if case["index"] is not None:
             lab += "+index"
+    if any(_ctype(case, k) == "obj" for k in case["cols"]):
+        case["entries"] = [e for e in case["entries"] if e != "polars"]      # mixed Python objects: no polars column type
     # argument forms and options (the model is the same function of the rows in all of them)
     case["relform"] = rng.choice(["tuples", "tuples", "lists", "tuple"])
-    if rng.random() < 0.3:
-        case["node_type"] = "custom"
+    if rng.random() < 0.45:
+        case["node_type"] = rng.choice(["custom", "eq", "eq", "len", "false", "kw"])
+        lab += "+" + case["node_type"]
+        if case["node_type"] == "eq":
+            case["rows"] = _case_variants(rng, case["rows"])
     if rng.random() < 0.3:
         case["ad_explicit"] = True                      # allow_duplicates=False passed explicitly
     if not case["allow_dup"] and lab.startswith("rel/valid") and rng.random() < 0.12:
@@ -706,7 +895,8 @@ def _gen_rel(rng, force=None):
          "duprow_attr", "cycle_unreach", "selfloop", "allowdup", "two_null", "dup_null", "emptyname"])
     ad = False
     rows = order_rows(rng, rows)
-    fresh = lambda k: {c: (k if c == "age" else (k % 2 == 0) if c == "flag" else "z") for c in cols}
+    fresh = lambda k: {c: (k if c == "age" else (k % 2 == 0) if c == "flag" else FL("0.5") if c == "w" else "z")
+                       for c in cols}
     if defect == "noroot":
         rows = [r for r in rows if r[1] is not None]
         x = rng.randrange(1, n)
@@ -809,7 +999,10 @@ def _has_cycle(rows):
     return False
 
 
-ATTR_KEYS = ["age", "tag", "x"]
+ATTR_KEYS = ["age", "tag", "x", "depth", "names", "name_en", "n", "path", "shift", "y"]
+
+
+NEST_VALUES = [v for v in OBJ_VALUES if not (isinstance(v, dict) and v["$"] == "npfloat" and v["v"] == "nan")]
 
 
 def gen_nest(rng, force_malformed=None):
@@ -831,9 +1024,9 @@ def gen_nest(rng, force_malformed=None):
     def node(i):
         entries = [[name_key, names[i]]]
         for k in ATTR_KEYS:
-            if rng.random() < 0.4:
+            if rng.random() < (0.4 if k in ("age", "tag", "x") else 0.08):
                 v = rng.choice([0, rng.randint(0, 99)]) if k == "age" else \
-                    rng.choice(["t", "u", "x y", "", "0"]) if k == "tag" else rng.choice([False, True, 0, 1])
+                    rng.choice(STR_VALUES) if k == "tag" else rng.choice(NEST_VALUES)
                 if rng.random() < 0.1:
                     v = None
                 entries.insert(rng.randint(0, len(entries)), [k, v])
@@ -870,11 +1063,37 @@ def gen_nest(rng, force_malformed=None):
         d = {"entries": [], "ckind": "missing", "kids": [], "cpos": 0}
     lab = f"nest/{'malformed/' + defect if defect else 'shared' if shared else 'valid'}/{shape}/{pool_name}/{name_key}-{child_key}"
     case = {"kind": "nest", "name_key": name_key, "child_key": child_key, "dict": d}
-    if rng.random() < 0.3:
-        case["node_type"] = "custom"
+    if rng.random() < 0.45:
+        case["node_type"] = rng.choice(["custom", "eq", "eq", "len", "false", "kw"])
+        lab += "+" + case["node_type"]
+        if case["node_type"] == "eq" and defect is None and not shared:
+            _nest_case_variants(rng, d, name_key)
     if rng.random() < 0.3:
         case["keys_explicit"] = True
     return lab, case
+
+
+def _nest_case_variants(rng, d, name_key):
+    names = set()
+
+    def collect(x):
+        names.update(v for k, v in x["entries"] if k == name_key and isinstance(v, str))
+        for k in x["kids"]:
+            collect(k)
+    collect(d)
+
+    def walk(x):
+        ks = x["kids"]
+        if len(ks) >= 2 and rng.random() < 0.7:
+            a, b = rng.sample(range(len(ks)), 2)
+            an = [v for k, v in ks[a]["entries"] if k == name_key]
+            if an and isinstance(an[0], str) and an[0].swapcase() != an[0] and an[0].swapcase() not in names:
+                new = an[0].swapcase()
+                names.add(new)
+                ks[b]["entries"] = [[k, (new if k == name_key else v)] for k, v in ks[b]["entries"]]
+        for k in ks:
+            walk(k)
+    walk(d)
 
 
 def _share_template(rng, d, name_key):
@@ -928,14 +1147,16 @@ def gen_heap(rng):
     elif style == "floats":
         l = [F(rng.choice([0.0, 0.5, 2.5, -1.5, 3.0, 7.25, -0.5])) for _ in range(n)]
     elif style == "mixed":
-        l = [rng.choice([0, F(0.0), 1, F(1.0), F(2.5), -3, F(-3.5), 4]) for _ in range(n)]
+        l = [rng.choice([0, F(0.0), 1, F(1.0), F(2.5), -3, F(-3.5), 4, ["d", "0"], ["d", "2.5"], ["ni", 0], ["ni", 5],
+                         ["nf", "0.0"], ["nf", "2.5"], ["b", False], ["b", True]]) for _ in range(n)]
     else:
         l = [rng.randint(0, 99) for _ in range(n)]
     case = {"kind": "heap", "list": l}
     if rng.random() < 0.25:
         case["as_tuple"] = True
-    if rng.random() < 0.3:
-        case["node_type"] = "custom"
+    if rng.random() < 0.45:
+        # (no falsy-instance subclass here: BinaryNode's parent setter tests slots with `if not child`, see rule())
+        case["node_type"] = rng.choice(["custom", "eq", "eq", "kw"])
     return f"heap/{style}/{'len>=16' if n >= 16 else 'len<16'}", case
 
 
@@ -1147,6 +1368,16 @@ def rule(prop):
             "requested class, the returned node is the root, child.parent is the parent, a second call with the same "
             "argument objects gives the same outcome, and the caller's list / DataFrame / polars frame / heap list is "
             "unchanged (values, column order, labels, dtypes).  "
+            "Attribute VALUES: ints, bools, floats (a Float64 / float column incl. 0.0), strings that look like a missing "
+            "value or a number ('nan', ' NaN ', 'inf', 'None', 'null', '<NA>', '0.0', '1e3', '') which must stay strings, and "
+            "- pandas object columns and nested dictionaries only - lists, numpy scalars, Decimal (incl. Decimal('NaN'), kept), "
+            "0 / False / [] ; in relation rows None, float NaN, numpy NaN and pd.NA mean 'no value' and are left off the node "
+            "by design, in a nested dictionary they are values.  Attribute NAMES also from depth / n / names / name_en / path "
+            "/ shift / x / y / root / val / left.  node_type: omitted, a plain subclass, a value-equality subclass (__eq__ / "
+            "__hash__ by lower-cased name, with siblings renamed to differ only in letter case; for heap lists equality by "
+            "val with repeated values), subclasses whose instances are falsy (__len__ = number of children; __bool__ = False; "
+            "not for BinaryNode, see partial clauses), a subclass with an extra constructor argument and a property - for "
+            "every entry point.  "
             "Empty parents are spelled None, NaN or pd.NA (per row) for the list and pandas entry points, in object and "
             "inferred-dtype frames (F12).  "
             "non-trivial = accepted tree with >= 3 nodes, or a refused input with >= 2 rows (relations); >= 3 nodes or "
@@ -1165,6 +1396,9 @@ def partial_clauses(prop):
         "says 'refused'); the order and int-vs-integral-float representation of node attributes (attributes are compared as "
         "a key -> value map, 2.0 folds to 2); anything about nodes beyond name, class, links and public attributes (sep, "
         "private fields)",
+        "not generated because the unchanged bigtree is not well-defined there (reported): BinaryNode subclasses whose "
+        "instances can be falsy (__len__ = number of children, or __bool__ by value) with list_to_binarytree - "
+        "BinaryNode's parent setter looks for a free slot with `if not child`, so a falsy left child is overwritten",
         "deliberately not generated: polars frames with inferred instead of declared "
         "column types; generators as relation lists (the function needs len()); names that are not str (the only "
         "Unmodelled domain of the nested-dict model: never generated, 0 skipped cases per run); attribute columns called "
